@@ -323,4 +323,59 @@ def SpecSt.view (p : SpecSt) : View where
 /-- what a reader must see after the history `ops` on a fresh file -/
 def specOf (ops : List Op) : View := (specRun {} ops).view
 
+/-! ### the `setup:software version` chain
+
+`store_metadata` brands the version given by the user — or, if the metadata passed contain no
+(non-empty) `setup:software version`, the chain already stored in the file — and always writes the
+result; `__exit__` brands the stored chain once more (`version_brand`). -/
+
+/-- `version_brand`: append `dclab X.Y.Z` unless it is already the last entry -/
+def brand (dclab : String) (chain : List String) : List String :=
+  if chain.getLast? = some dclab then chain else chain ++ [dclab]
+
+inductive VerOp where
+  /-- `store_metadata`; `given` = the entries of `meta["setup"]["software version"]`
+  (`[]` = key absent or empty, with or without a `setup` section) -/
+  | store (given : List String)
+  /-- writer exit -/
+  | close
+  /-- a writer opened in `reset` mode -/
+  | reset
+
+def verStep (dclab : String) (chain : List String) : VerOp → List String
+  | .store given => brand dclab (if given.isEmpty then chain else given)
+  | .close => brand dclab chain
+  | .reset => []
+
+def verRun (dclab : String) (chain : List String) : List VerOp → List String
+  | [] => chain
+  | op :: ops => verRun dclab (verStep dclab chain op) ops
+
+/-! ### the reader's per-feature cache (`H5ScalarEvent._array`)
+
+`__array__(dtype)` reads the dataset once, keeps the array *as stored* and converts a copy for
+the caller (`CacheRule.clean`).  `CacheRule.convertFirst` is the tempting variant that lets the
+first read convert. -/
+
+inductive CacheRule where
+  | clean | convertFirst
+
+/-- one access with conversion `conv` (identity for a plain access); returns the new cache and
+what the caller gets -/
+def accessStep (rule : CacheRule) (data : List Tok) (cache : Option (List Tok))
+    (conv : Tok → Tok) : Option (List Tok) × List Tok :=
+  let arr := match cache with
+    | some a => a
+    | none => match rule with
+      | .clean => data
+      | .convertFirst => data.map conv
+  (some arr, match rule with
+    | .clean => arr.map conv
+    | .convertFirst => if cache.isSome then arr.map conv else arr)
+
+def accessRun (rule : CacheRule) (data : List Tok) (cache : Option (List Tok)) :
+    List (Tok → Tok) → List (List Tok)
+  | [] => []
+  | c :: cs => (accessStep rule data cache c).2 :: accessRun rule data (accessStep rule data cache c).1 cs
+
 end DclabModel.Writer
